@@ -245,8 +245,10 @@ class FaultLog:  # 0418  # TODO: use a NamedTuple
         assert cmd.verb == RQ and pkt.code == Code._0418
         assert cmd.rx_header and cmd.rx_header[:-2] == pkt._hdr[:-2]  # reply to this RQ
 
-        if cmd._idx == "00":  # no need to hack
-            return Message(pkt)
+        if cmd._idx == "00":  # no need to hack the pkt, but the msg still needs its idx
+            msg = Message(pkt)
+            msg._payload = {SZ_LOG_IDX: "00", SZ_LOG_ENTRY: None}  # PayDictT._0418_NULL
+            return msg
 
         idx = cmd.rx_header[-2:]  # cmd._idx could be bool/None?
         pkt.payload = f"0000{idx}B0000000000000000000007FFFFF7000000000"
